@@ -77,6 +77,9 @@ def run_group(args) -> List[Dict[str, Any]]:
                 cases.append({"id": k, "files": cl["files"], "src": os.path.join(base, f"run{run}", f"s{k}", "x" * run, "src"),
                               "out": os.path.join(base, f"run{run}", f"o{k}" + ("_other" * run)), "name": "gen", "kw": cl["kw"], "black": True})
             spec = {"cwd": os.path.join(base, cwd), "cases": cases, "relative": run == 1}
+            if run == 1:
+                # the second run builds every closure of the group into ONE directory that already holds the previous closure's outputs
+                spec["shared_out"] = os.path.join(base, "run1", "shared_out")
             sp = os.path.join(base, f"spec{run}.json")
             with open(sp, "w") as f:
                 json.dump(spec, f)
